@@ -99,6 +99,52 @@ Theorem C17_order_classes : forall specificity a b,
 Proof. exact eqv_item_spec. Qed.
 Print Assumptions C17_order_classes.
 
+(* ---- header text, end to end: a header written by the serialiser from plain items (ranges without
+   parameters; q = 1 or 0.d...d with any number of fraction digits) parses back to exactly those
+   items, stably sorted; so C17_optimal speaks about the text of such a header *)
+Theorem C17_accept_roundtrip : forall f items,
+  Forall plain_item items ->
+  accept_items (render_header items) = Ok items /\
+  parse_accept f (render_header items) = Ok (mk_accept (spec_of f) items).
+Proof. exact accept_roundtrip. Qed.
+Print Assumptions C17_accept_roundtrip.
+
+Theorem C17_optimal_header_text : forall tbl f items offers,
+  Forall plain_item items -> offers_valid f offers ->
+  exists acc res,
+    parse_accept f (render_header items) = Ok acc /\
+    best_match (spec_of f) (matches_of tbl f) acc offers = Ok res /\
+    choice (spec_of f) (mb_of tbl f) items offers res.
+Proof. exact header_text_optimal. Qed.
+Print Assumptions C17_optimal_header_text.
+
+(* str(accept) / to_header(): for an Accept object (a list sorted by (specificity, q)) of plain values
+   with qualities in [0, 1], parsing its header text gives the same values in the same order, each
+   quality rewritten in its shortest form (norm_item), which is equal to it as a rational *)
+Theorem C17_to_header_roundtrip : forall f acc,
+  Forall (fun it => plain_value (fst it) = true /\ q_in_range (snd it)) acc ->
+  StronglySorted (fun a b => item_geb (spec_of f) a b = true) acc ->
+  parse_accept f (to_header acc) = Ok (map norm_item acc) /\
+  Forall (fun it => fst (norm_item it) = fst it /\ qeqb (snd (norm_item it)) (snd it) = true) acc.
+Proof. exact to_header_roundtrip. Qed.
+Print Assumptions C17_to_header_roundtrip.
+
+(* ---- the float contract: for ANY type F of floats with conversion fl and comparisons flt, fle, feq
+   that agree with the decimal comparisons on literals of at most 15 significant digits (sig15), the
+   decision expressions of the code evaluated on floats (the g_ functions of C17/Gen.v, regenerated
+   from the source, instantiated with F) and the float sort-key comparison give the model's answers.
+   The hypothesis is the trusted contract of float(); it is listed in the evidence *)
+Theorem C17_float_contract : forall (F : Type) (fl : Qd -> F) (flt fle feq : F -> F -> bool),
+  (forall a b, sig15 a = true -> sig15 b = true ->
+     flt (fl a) (fl b) = qltb a b /\ fle (fl a) (fl b) = qleb a b /\ feq (fl a) (fl b) = qeqb a b) ->
+  forall q bq s bs, sig15 q = true -> sig15 bq = true ->
+    g_q_out_of_range F flt fle feq (f_ofZ F fl) (fl q) = q_out_of_range q /\
+    g_bm_skip F flt fle feq (f_ofZ F fl) (fl q) (fl bq) = bm_skip q bq /\
+    g_bm_take F flt fle feq (f_ofZ F fl) (fl q) (fl bq) s bs = bm_take q bq s bs /\
+    f_key_geb F fle (s, fl q) (bs, fl bq) = key_geb (s, q) (bs, bq).
+Proof. exact float_decisions. Qed.
+Print Assumptions C17_float_contract.
+
 (* ---- LanguageAccept.best_match: exact stage, then the two primary-tag fallbacks *)
 Theorem C17_language_fallback : forall tbl value acc offers,
   parse_accept FLang value = Ok acc ->
@@ -166,3 +212,20 @@ Example C17_example_language_fallback :
   = Ok (Some [101; 110; 45; 85; 83]).
 Proof. exact example_language_fallback. Qed.
 Print Assumptions C17_example_language_fallback.
+
+Example C17_example_roundtrip :
+  Forall plain_item ex_items /\
+  render_header ex_items = [103; 122; 105; 112; 59; 113; 61; 48; 46; 53; 44; 98; 114; 44; 42; 59; 113; 61; 48; 46; 49; 50; 53] /\
+  parse_accept FBase (render_header ex_items)
+  = Ok [([98; 114], (1%Z, 0)); ([103; 122; 105; 112], (5%Z, 1)); ([42], (125%Z, 3))] /\
+  to_header [([98; 114], (1%Z, 0)); ([103; 122; 105; 112], (50%Z, 2)); ([42], (0%Z, 0))]
+  = [98; 114; 44; 103; 122; 105; 112; 59; 113; 61; 48; 46; 53; 44; 42; 59; 113; 61; 48; 46; 48].
+Proof. exact example_roundtrip. Qed.
+Print Assumptions C17_example_roundtrip.
+
+Example C17_example_float_contract :
+  exists (F : Type) (fl : Qd -> F) (flt fle feq : F -> F -> bool),
+    forall a b, sig15 a = true -> sig15 b = true ->
+      flt (fl a) (fl b) = qltb a b /\ fle (fl a) (fl b) = qleb a b /\ feq (fl a) (fl b) = qeqb a b.
+Proof. exact example_float_contract. Qed.
+Print Assumptions C17_example_float_contract.
